@@ -41,6 +41,13 @@ def cases(tier, seed):
         if i < 20 or i % (6 if tier == "quick" else 3) == 0:
             # the printed CLI route for a deterministic slice of the corpus
             out.append({"input": {"text": text, "goals": goals[:3], "route": "cli-text"}, "N": 4, "seed": seed})
+    # programs with symbolic parameters (probabilities, coefficients, distribution parameters, initial values): the closed
+    # form must be right for ALL parameter values - the model's E_n(M) is a polynomial in p, q and the comparison is exact
+    from . import c10
+
+    par = c10.cases(tier, seed)
+    for pc in (par[::3] if tier == "quick" else par):
+        out.append({"input": {"text": pc["input"]["text"], "goals": pc["input"]["goals"][:4]}, "N": 4, "seed": seed})
     al = alias_programs(tier)
     for text in (al[::4] if tier == "quick" else al):
         out.append({"input": {"text": text, "goals": ["x", "y", "x*y"]}, "N": 4, "seed": seed})
